@@ -40,6 +40,7 @@ type Job struct {
 	Key      string   `json:"key"`
 	MaxCases int      `json:"max_cases"`
 	ShrinkN  int      `json:"shrink_budget"`
+	StartCase int     `json:"start_case"`
 	From     int      `json:"from"`
 	To       int      `json:"to"`
 }
@@ -303,9 +304,10 @@ func runSimCheck(id, tier string, seed uint64, p propInfo, scratch string, start
 
 	m := newMerge()
 	type wres struct {
-		out   *Out
-		crumb string
+		outs  []*Out
+		hangs []ReplayFile
 		err   error
+		infra string
 		w     int
 	}
 	results := make([]wres, workers)
@@ -314,9 +316,44 @@ func runSimCheck(id, tier string, seed uint64, p propInfo, scratch string, start
 		wg.Add(1)
 		go func(w int) {
 			defer wg.Done()
-			job := Job{Mode: "range", Property: id, Tier: tier, Seed: seed, Worker: w, Workers: workers, Deadline: deadline, MaxCases: envInt("FALCOSIM_MAXCASES", 0)}
-			o, crumb, err := runWorker(bi.Bin, job, scratch, stuck, caseBudget+10*time.Minute, nil)
-			results[w] = wres{o, crumb, err, w}
+			r := wres{w: w}
+			defer func() { results[w] = r }()
+			start := 0
+			// A case that kills its worker (unrecoverable Go fatal, panic on a
+			// goroutine falco started, hang) is attributed through the breadcrumb,
+			// confirmed alone, recorded, and the worker is restarted after it.
+			for losses := 0; losses <= 12; losses++ {
+				job := Job{Mode: "range", Property: id, Tier: tier, Seed: seed, Worker: w, Workers: workers, Deadline: deadline, MaxCases: envInt("FALCOSIM_MAXCASES", 0), StartCase: start}
+				o, crumb, err := runWorker(bi.Bin, job, scratch, stuck, caseBudget+10*time.Minute, nil)
+				if err == nil {
+					r.outs = append(r.outs, o)
+					return
+				}
+				c, perr := strconv.Atoi(strings.TrimSpace(crumb))
+				if perr != nil || c < 0 {
+					r.err = fmt.Errorf("worker %d failed outside any case: %v", w, err)
+					return
+				}
+				fmt.Printf("falcosim: worker %d lost at case %d (%v); re-running that case alone\n", w, c, firstLine(err.Error()))
+				single := Job{Mode: "range", Property: id, Tier: tier, Seed: seed, Worker: c, Workers: 1 << 30}
+				_, _, err2 := runWorker(bi.Bin, single, scratch, 10*stuck, 10*stuck, nil)
+				if err2 == nil {
+					// It completed alone: the loss was infrastructure (memory, machine load).
+					r.infra = fmt.Sprintf("case %d completes alone; the loss of worker %d is treated as infrastructure trouble", c, w)
+					return
+				}
+				kind := "hang"
+				detail := fmt.Sprintf("case %d made no progress for %v when run alone (and killed its worker in the batch)", c, 10*stuck)
+				key := fmt.Sprintf("%s/hang:case", id)
+				if !strings.Contains(err2.Error(), "stuck") {
+					kind = "fatal"
+					detail = fmt.Sprintf("case %d kills the process with an unrecoverable Go runtime error:\n%s", c, headTail(err2.Error(), 3500, 1500))
+					key = fmt.Sprintf("%s/fatal:%s", id, fatalClass(err2.Error()))
+				}
+				r.hangs = append(r.hangs, ReplayFile{Property: id, Engine: p.Engine, Tier: tier, Seed: seed, Case: uint64(c), Hang: true,
+					Violation: Violation{Oracle: id + "/" + kind, Key: key, Detail: detail}})
+				start = c + 1
+			}
 		}(w)
 	}
 	wg.Wait()
@@ -324,45 +361,21 @@ func runSimCheck(id, tier string, seed uint64, p propInfo, scratch string, start
 	var hangs []ReplayFile
 	for _, r := range results {
 		if r.err != nil {
-			// A worker died or got stuck: attribute to the breadcrumb case and
-			// re-run that case alone with a 10x budget before believing it.
-			c, perr := strconv.Atoi(strings.TrimSpace(r.crumb))
-			if perr != nil || c < 0 {
-				fmt.Fprintf(os.Stderr, "falcosim: worker %d failed outside any case: %v\n", r.w, r.err)
-				return 2
-			}
-			fmt.Printf("falcosim: worker %d lost at case %d (%v); re-running that case alone\n", r.w, c, firstLine(r.err.Error()))
-			job := Job{Mode: "range", Property: id, Tier: tier, Seed: seed, Worker: c, Workers: 1 << 30}
-			o, _, err2 := runWorker(bi.Bin, job, scratch, 10*stuck, 10*stuck, nil)
-			if err2 == nil {
-				// It completed alone: the loss was infrastructure (memory, machine load).
-				if o.Error != "" {
-					fmt.Fprintf(os.Stderr, "falcosim: harness error: %s\n", o.Error)
-					return 2
-				}
-				m.add(o)
-				fmt.Fprintf(os.Stderr, "falcosim: case %d completes alone; the worker loss is treated as infrastructure trouble\n", c)
-				return 2
-			}
-			kind := "hang"
-			detail := fmt.Sprintf("case %d made no progress for %v when run alone (and killed its worker in the batch)", c, 10*stuck)
-			if !strings.Contains(err2.Error(), "stuck") {
-				kind = "fatal"
-				detail = fmt.Sprintf("case %d kills the process with an unrecoverable Go runtime error:\n%s", c, headTail(err2.Error(), 3500, 1500))
-			}
-			key := fmt.Sprintf("%s/%s:case", id, kind)
-			if kind == "fatal" {
-				key = fmt.Sprintf("%s/fatal:%s", id, fatalClass(err2.Error()))
-			}
-			hangs = append(hangs, ReplayFile{Property: id, Engine: p.Engine, Tier: tier, Seed: seed, Case: uint64(c), Hang: true,
-				Violation: Violation{Oracle: id + "/" + kind, Key: key, Detail: detail}})
-			continue
-		}
-		if r.out.Error != "" {
-			fmt.Fprintf(os.Stderr, "falcosim: harness error in worker %d: %s\n", r.w, r.out.Error)
+			fmt.Fprintf(os.Stderr, "falcosim: %v\n", r.err)
 			return 2
 		}
-		m.add(r.out)
+		if r.infra != "" {
+			fmt.Fprintf(os.Stderr, "falcosim: %s\n", r.infra)
+			return 2
+		}
+		hangs = append(hangs, r.hangs...)
+		for _, o := range r.outs {
+			if o.Error != "" {
+				fmt.Fprintf(os.Stderr, "falcosim: harness error in worker %d: %s\n", r.w, o.Error)
+				return 2
+			}
+			m.add(o)
+		}
 	}
 
 	// Minimise, confirm and write out every distinct violation.
@@ -427,11 +440,16 @@ func runSimCheck(id, tier string, seed uint64, p propInfo, scratch string, start
 		reported = append(reported, fmt.Sprintf("VIOLATION property=%s replay=%s", id, path))
 		fmt.Printf("falcosim: %s x%d — %s\n", k, f.Count, firstLine(rf.Violation.Detail))
 	}
+	seenHang := map[string]bool{}
 	for _, h := range hangs {
 		if e := kf.known(id, h.Violation.Key); e != nil {
 			knownHit[h.Violation.Key]++
 			continue
 		}
+		if seenHang[h.Violation.Key] {
+			continue
+		}
+		seenHang[h.Violation.Key] = true
 		h.RepoHead, h.RepoDirty = repoHead(), repoStatus() != ""
 		path := writeReplay(h)
 		reported = append(reported, fmt.Sprintf("VIOLATION property=%s replay=%s", id, path))
